@@ -673,6 +673,9 @@ class BlockDownloadStream(io.RawIOBase):
         self._retransmitting = False
         # Accepted data that does not fill a segment yet
         self._pending = b""
+        # Set while there is no transfer for close() to end: before the
+        # initiate has succeeded and after a failed exchange
+        self._error = True
         command = REQUEST_BLOCK_DOWNLOAD | INITIATE_BLOCK_TRANSFER
         if request_crc_support:
             command |= CRC_SUPPORTED
@@ -701,6 +704,7 @@ class BlockDownloadStream(io.RawIOBase):
         self._blksize, = struct.unpack_from("B", response, 4)
         logger.debug("Server requested a block size of %d", self._blksize)
         self.crc_supported = bool(res_command & CRC_SUPPORTED)
+        self._error = False
 
     def write(self, b):
         """
@@ -715,6 +719,15 @@ class BlockDownloadStream(io.RawIOBase):
             segment of 7 bytes is kept until more data arrives, unless the
             total size has been reached.
         """
+        try:
+            return self._write(b)
+        except SdoError:
+            # Aborted or timed out: the transfer is over, close() must not
+            # try to end it
+            self._error = True
+            raise
+
+    def _write(self, b):
         if self._done:
             raise RuntimeError("All expected data has already been transmitted")
         # Can send up to 7 bytes at a time. Take a copy: the segment is kept for a
@@ -821,6 +834,9 @@ class BlockDownloadStream(io.RawIOBase):
         if self.closed:
             return
         super(BlockDownloadStream, self).close()
+        if self._error:
+            # The transfer failed or was never initiated: nothing to end
+            return
         if not self._done:
             logger.error("Block transfer was not finished")
         command = REQUEST_BLOCK_DOWNLOAD | END_BLOCK_TRANSFER
